@@ -189,23 +189,36 @@ def _content(chunks_hex, ctype):
 
 
 class TokMismatch:
-    def __init__(self, eid, details):
+    def __init__(self, eid, details, env=None):
         self.eid = eid
         self._details = details
+        self._env = env
 
     def describe(self):
         return "mismatch-%s" % self.eid
 
     def get_details(self):
-        return {name: _content([h], "bin") for name, h in self._details}
+        from testtools.content import Content
+        from testtools.content_type import ContentType
+        out = {}
+        for name, h in self._details:
+            if h.startswith("cell:"):
+                # a detail that is evaluated lazily (a log being appended to, say): what counts is what it
+                # yields when the outcome is reported
+                cell, env = h[5:], self._env
+                env.cells.setdefault(cell, b"initial-" + cell.encode())
+                out[name] = Content(ContentType("application", "octet-stream"), lambda cell=cell, env=env: [env.cells[cell]])
+            else:
+                out[name] = _content([h], "bin")
+        return out
 
 
 class TokMatcher:
-    def __init__(self, eid, ok, details):
-        self.eid, self.ok, self.details = eid, ok, details
+    def __init__(self, eid, ok, details, env=None):
+        self.eid, self.ok, self.details, self.env = eid, ok, details, env
 
     def match(self, value):
-        return None if self.ok else TokMismatch(self.eid, self.details)
+        return None if self.ok else TokMismatch(self.eid, self.details, self.env)
 
     def __str__(self):
         return "TokMatcher(%s)" % self.eid
@@ -323,6 +336,11 @@ def make_fixture(env, fid, spec):
             if how != "ok":
                 _do_raise(env, None, ["raise", how, "FX:" + fid])
 
+        if spec.get("setup_override"):
+            def setUp(self):
+                super().setUp()
+                _do_raise(env, None, ["raise", spec["setup_override"], "FX:" + fid])
+
         def _logged_cleanup(self):
             env.log("fixture_cleanup", fid)
             for chunks in getattr(self, "_live", []):
@@ -415,14 +433,14 @@ def run_actions(env, case, actions, where):
             eid, ok, details = a[1], a[2], a[3]
             if not ok:
                 env.log("expect_mismatch", eid, details)
-            case.expectThat(eid, TokMatcher(eid, ok, details))
+            case.expectThat(eid, TokMatcher(eid, ok, details, env))
             env.log("expect_returned", eid)
         elif op == "assert":
             eid, ok, details = a[1], a[2], a[3]
             if not ok:
                 env.log("assert_mismatch", eid, details)
             try:
-                case.assertThat(eid, TokMatcher(eid, ok, details))
+                case.assertThat(eid, TokMatcher(eid, ok, details, env))
             except BaseException as e:
                 env.raised.append(("mismatch", eid, e))
                 env.log("raise", "mismatch", eid)
